@@ -1,0 +1,91 @@
+//go:build verif
+
+// Contracts for the deductive checker in /verif (comment-only; compiled only with -tags verif).
+// C08 (safety part): edge-multi triggering never indexes outside the window and every record
+// specification it produces can be cut from the window, for every stream content, edge position and state.
+// The block-boundary independence of the record sequence is NOT expressed here (see DESIGN.md).
+
+package dastard
+
+// The kink fit returns one of the candidate positions (gonum least squares; trusted).
+//@ func kinkModelFit
+//@   trusted
+//@   ensures result2 == nil ==> (exists c int :: 0 <= c && c < len(ks) && result0 == ks[c])
+//@   modifies nothing
+
+//@ extern func math.Ceil
+//@   pure
+//@   ensures result == real(0 - floor(0.0 - x))
+
+// EMTOK: the validity rule of EMTState.valid() plus sane lengths.
+//@ pred EMTOK(s *EMTState) := 1 <= s.npre && s.npre < s.nsamp && s.nsamp < 1000000000 && s.nmonotone <= s.nsamp - s.npre
+//@     && (s.enableZeroThreshold ==> s.npre >= 4 && s.nsamp - s.npre >= 4)
+
+//@ func zeroThreshold
+//@   props C08
+//@   requires allocated(raw) && (enable ==> 4 <= i && i + 3 < len(raw) && i < 1000000000)
+//@   ensures shift: i - 1 <= result && result <= i + 1 && (!enable ==> result == i)
+//@   modifies nothing
+//@   loop 1
+//@     invariant 0 <= j && j <= 8 && enable
+
+//@ func edgeMultiFindNextTriggerInd
+//@   props C08
+//@   requires allocated(raw) && 1 <= iFirst && len(raw) < 1000000000 && 1 <= maxNmonotone && iLast + maxNmonotone <= len(raw) - 1
+//@   requires enableZeroThreshold ==> 4 <= iFirst && maxNmonotone >= 4
+//@   ensures found: result.triggerFound ==> iFirst <= iLast && iFirst - 1 <= result.triggerInd && result.triggerInd <= iLast + 1 && result.nextIFirst > result.triggerInd && result.nextIFirst > iFirst && result.nextIFirst <= iLast + maxNmonotone + 1
+//@   ensures none: !result.triggerFound ==> result.nextIFirst == max(iLast + 1, iFirst)
+//@   modifies nothing
+//@   loop 1
+//@     invariant iFirst <= i && rising == (threshold >= 1) && falling == !rising
+//@   loop 2
+//@     invariant iFirst <= i && i <= iLast && 1 <= j && j <= maxNmonotone && rising == (threshold >= 1) && falling == !rising
+
+//@ func min
+//@   props C08
+//@   ensures result == min(a, b)
+//@   modifies nothing
+//@ func max
+//@   props C08
+//@   ensures result == max(a, b)
+//@   modifies nothing
+
+// A record specification that edgeMultiShouldRecord accepts lies between its neighbours.
+//@ func edgeMultiShouldRecord
+//@   props C08
+//@   requires 1 <= npreIn && npreIn < nsampIn && nsampIn < 1000000000 && 0 <= t && t <= u && u <= v && v < 4100000000000000000
+//@   ensures spec: result1 ==> result0.firstRisingFrameIndex == u && 0 <= result0.npre && result0.npre <= npreIn && result0.npre < result0.nsamp && result0.nsamp <= nsampIn && result0.nsamp - result0.npre <= nsampIn - npreIn
+//@        && t < u && u < v && (mode != 0 ==> result0.nsamp - result0.npre <= v - u)
+//@   ensures full: result1 && mode != 1 ==> result0.npre == npreIn && result0.nsamp == nsampIn
+//@   modifies nothing
+
+// Pending(s, f0, n): the newest trigger v found so far has not been made into a record yet (it waits for its
+// successor); it must still be cuttable from the window [f0, f0+n), and it is less than one record behind the
+// next sample to inspect (otherwise it would have been made into a record already).
+//@ pred Pending(s *EMTState, f0 FrameIndex, n int) := s.v > 0 && s.u != s.v ==> s.v - f0 >= s.npre && s.v - f0 + s.nsamp - s.npre <= n && s.v >= s.nextFrameIndexToInspect - s.nsamp
+//@ pred EMTOrder(s *EMTState, f0 FrameIndex, n int) := 0 <= s.t && s.t <= s.u && s.u <= s.v && f0 >= 0 && f0 + n < 4000000000000000000
+//@     && (s.v > 0 ==> s.v < s.nextFrameIndexToInspect) && s.nextFrameIndexToInspect - f0 <= max(n, s.npre)
+// MinPre: fixed-length modes always give the full pre-trigger length; variable-length records may have none at all
+// (a trigger that follows the previous one within its post-trigger length).
+//@ pred MinPre(s *EMTState) := ite(s.mode == 1, 0, 1)
+
+//@ func (*EMTState).edgeMultiComputeRecordSpecs
+//@   props C08 C01
+//@   requires EMTOK(s) && allocated(raw) && len(raw) < 1000000000 && EMTOrder(s, frameIndexOfraw0, len(raw)) && Pending(s, frameIndexOfraw0, len(raw))
+//@   ensures isnew: fresh(result)
+//@   ensures inrange: SpecsInRange(result, len(raw), frameIndexOfraw0, MinPre(s))
+//@   ensures state: EMTOrder(s, frameIndexOfraw0, len(raw)) && Pending(s, frameIndexOfraw0, len(raw)) && unchanged(s.npre, s.nsamp, s.mode, s.threshold, s.nmonotone, s.enableZeroThreshold)
+//@   ensures reach: s.nextFrameIndexToInspect - frameIndexOfraw0 >= len(raw) - (s.nsamp - s.npre)
+//@   modifies s.nextFrameIndexToInspect, s.t, s.u, s.v, s.iFirstCheckSentinel
+//@   loop 1
+//@     invariant maxLookback == s.npre && maxLookahead == s.nsamp - s.npre && maxNmonotone == maxLookahead && iLast == len(raw) - 1 - maxLookahead && EMTOK(s) && unchanged(s.npre, s.nsamp, s.mode, s.threshold, s.nmonotone, s.enableZeroThreshold)
+//@     invariant first: maxLookback <= iFirst && iFirst <= max(len(raw), maxLookback)
+//@     invariant order: 0 <= t && t <= u && u <= v && (v > 0 ==> v < frameIndexOfraw0 + iFirst)
+//@     invariant pending: v > 0 && u != v ==> v - frameIndexOfraw0 >= s.npre && v - frameIndexOfraw0 + s.nsamp - s.npre <= len(raw)
+//@     invariant specs: fresh(recordSpecs) && allocated(recordSpecs) && SpecsInRange(recordSpecs, len(raw), frameIndexOfraw0, MinPre(s))
+
+//@ func (EMTState).valid
+//@   props C08
+//@   requires s.npre > -1000000000 && s.npre < 1000000000 && s.nsamp > -1000000000 && s.nsamp < 1000000000
+//@   ensures result <==> !(s.enableZeroThreshold && s.npre < 4) && !(s.enableZeroThreshold && s.nsamp - s.npre < 4) && s.nmonotone <= s.nsamp - s.npre
+//@   modifies nothing
